@@ -14,7 +14,10 @@ from .execworld import ExecImpl, run_both, val_s, node_s, parse_val
 def gen_case(rng, cfg):
     g = Gen(rng, catch_all_p=cfg.get("catch_all_p", 0.12), raise_p=cfg.get("raise_p", 0.06),
             none_p=cfg.get("none_p", 0.04), fail_cell_p=cfg.get("fail_cell_p", 0.0),
-            handled_seq_p=cfg.get("handled_seq_p", 0.0), lam_p=cfg.get("lam_p", 0.0))
+            handled_seq_p=cfg.get("handled_seq_p", 0.0), lam_p=cfg.get("lam_p", 0.0),
+            space_p=cfg.get("space_p", 0.0))
+    if cfg.get("no_try_p") and rng.random() < cfg["no_try_p"]:
+        g.no_try = True
     ncells = rng.randint(cfg.get("min_cells", 2), cfg.get("max_cells", 6))
     cells, refs = g.program(ncells)
     if cfg.get("all_cached"):
@@ -43,6 +46,16 @@ def gen_case(rng, cfg):
             ops.append(["clear", str(c["id"])])
         elif k == "clearall":
             ops.append(["clearall", str(c["id"])])
+        elif k == "setref":
+            ops.append(["setref", str(rng.randrange(g.n_rn + g.n_ra)), str(rng.randint(-1, 6))])
+        elif k == "delref":
+            ops.append(["delref", str(rng.randrange(g.n_rn + g.n_ra))])
+        elif k == "setformula":
+            # a new body of the same arity; it calls lower cells (or itself, guarded) only, like the old one
+            g.cur_space = int(c.get("space", 0))
+            ops.append(["setformula", str(c["id"]), sexp(g.body(c["id"], c["nparams"], [x["nparams"] for x in cells]))])
+        elif k == "setcached":
+            ops.append(["setcached", str(c["id"]), str(rng.randrange(2))])
     return {"cells": cells, "refs": refs, "n_rn": g.n_rn, "maxdepth": maxdepth, "ops": ops}
 
 
